@@ -204,7 +204,7 @@ func (p *Program) callMods(cc *ssa.CallCommon, ms *ModSet) {
 		case "(io.Writer).Write":
 			ms.add(descAlloc)
 			ms.Writes = true
-		case "(error).Error":
+		case "(error).Error", "(io.Seeker).Seek":
 			ms.add(descAlloc)
 		default:
 			ms.All = true
